@@ -463,6 +463,31 @@ theorem resave_stable_typed_partial (tb : Descriptor.Tables) (ht : Descriptor.Te
   exact ⟨C01Payload3.psd_roundtrip_resources tb pad x hwf s hs, by rw [ResPSD.enc_refresh, hs]⟩
 
 
+/-! ## normalising readers -/
+
+/-- Readers that normalise: the re-saved bytes differ from the accepted ones, and (by the class's `…_resave_stable`) all three
+clauses hold - the property does not ask for the original bytes. Each line is replayed on the real code by the harness
+(harness/corpus/C02payload.json). -/
+theorem normalising_readers :
+    -- `try: read_fmt("H2x") except IOError: read_fmt("H")`: a 2-byte payload comes back with the filler
+    ResaveSamples.resaved ShortIntegerElement.codec [0, 5] = .ok [0, 5, 0, 0] ∧
+    ResaveSamples.resaved ByteElement.codec [5] = .ok [5, 0, 0, 0] ∧
+    ResaveSamples.resaved BooleanElement.codec [7] = .ok [1, 0, 0, 0] ∧
+    -- trailing bytes the reader never looks at are not written back
+    ResaveSamples.resaved Byte.codec [7, 1, 2] = .ok [7] ∧
+    -- read with `padding=2`, written with `padding=1`
+    ResaveSamples.resaved PascalString.codec [0, 0] = .ok [0] ∧
+    -- a flag byte is any non-zero byte; the filler of `H4x2?` is zeroed
+    ResaveSamples.resaved PrintFlags.codec [2, 0, 0, 0, 0, 0, 0, 0xff] = .ok [1, 0, 0, 0, 0, 0, 0, 1] ∧
+    -- `fp.read(size)` is lenient: the declared size 9 of a thumbnail with 2 bytes of data becomes 2
+    ResaveSamples.resaved Thumbnail.codec ([0, 0, 0, 1, 0, 0, 0, 1, 0, 0, 0, 1, 0, 0, 0, 4, 0, 0, 0, 2] ++ [0, 0, 0, 9] ++ [0, 24, 0, 1] ++ [7, 8]) =
+      .ok ([0, 0, 0, 1, 0, 0, 0, 1, 0, 0, 0, 1, 0, 0, 0, 4, 0, 0, 0, 2] ++ [0, 0, 0, 2] ++ [0, 24, 0, 1] ++ [7, 8]) ∧
+    -- `Bytes`: `fp.read(4)` of a 6-byte payload
+    ResaveSamples.resaved BytesElement.codec [1, 2, 3, 4, 5, 6] = .ok [1, 2, 3, 4] ∧
+    -- a section divider with 5 stray bytes behind the kind
+    ResaveSamples.resaved SectionDividerSetting.codec [0, 0, 0, 1, 9, 9, 9, 9, 9] = .ok [0, 0, 0, 1] := by decide +kernel
+
+
 /-! ## non-vacuity -/
 
 /-- an accepted payload that no writer produces: a halftone screen whose frequency has the top bit set, a flag byte 2, four
